@@ -42,6 +42,7 @@ pub mod c06;
 pub mod c07;
 pub mod c08;
 pub mod c09;
+pub mod c10;
 pub mod c11;
 pub mod c12;
 pub mod c13;
@@ -51,6 +52,7 @@ pub mod c16;
 pub mod c17;
 pub mod c18;
 pub mod c19;
+pub mod c20;
 
 pub fn run(prop: &str) -> Option<Report> {
     match prop {
@@ -63,6 +65,7 @@ pub fn run(prop: &str) -> Option<Report> {
         "C07" => c07::run(),
         "C08" => c08::run(),
         "C09" => c09::run(),
+        "C10" => c10::run(),
         "C11" => c11::run(),
         "C12" => c12::run(),
         "C13" => c13::run(),
@@ -72,6 +75,7 @@ pub fn run(prop: &str) -> Option<Report> {
         "C17" => c17::run(),
         "C18" => c18::run(),
         "C19" => c19::run(),
+        "C20" => c20::run(),
         _ => None,
     }
 }
